@@ -185,6 +185,12 @@ def join_blocks(
                 new_k = block1.size + k
                 new_displacement_map.setdefault(new_k, []).extend(v)
 
+    if isinstance(block2, gtirb.DataBlock):
+        for table_def in (_auxdata.types, _auxdata.encodings):
+            block_table = table_def.get(module)
+            if block_table:
+                block_table.pop(block2, None)
+
     alignment_data = _auxdata.alignment.get(module)
     if alignment_data:
         block1_align = alignment_data.get(block1, 1)
